@@ -37,12 +37,13 @@ Record job := mkJob {
   jstate : pstate;
   jexpected : option pstate;
   jchanged : bool;
-  jowned : bool
+  jowned : bool;
+  jname : str                   (* Job::name, what %name / %?name match *)
 }.
 
-(* Job::new(pid) followed by `job.state = st` as the callers do *)
-Definition new_job (pid : Z) (st : pstate) : job :=
-  mkJob pid st None true true.
+(* Job::new(pid) followed by `job.state = st; job.name = name` as the callers do *)
+Definition new_job (pid : Z) (st : pstate) (name : str) : job :=
+  mkJob pid st None true true name.
 
 Definition suspended (j : job) : bool := is_stopped (jstate j).
 
@@ -247,7 +248,7 @@ Definition update_status (s : joblist) (pid : Z) (st : pstate) : joblist * optio
           let was := suspended j in
           let j' := mkJob (jpid j) st None
                       (jchanged j || negb (option_eqb pstate_eqb (jexpected j) (Some st)))
-                      (jowned j) in
+                      (jowned j) (jname j) in
           let s1 := mkJL (set_slot (slots s) index (Some j')) (free s) (pidx s) (cur s) (prev s) in
           let now := is_stopped st in
           if negb was && now then
@@ -278,7 +279,7 @@ Definition update_panics (s : joblist) (pid : Z) : bool :=
   end.
 
 Definition disown_all (s : joblist) : joblist :=
-  mkJL (map (option_map (fun j => mkJob (jpid j) (jstate j) (jexpected j) (jchanged j) false))
+  mkJL (map (option_map (fun j => mkJob (jpid j) (jstate j) (jexpected j) (jchanged j) false (jname j)))
             (slots s))
        (free s) (pidx s) (cur s) (prev s).
 
@@ -288,7 +289,7 @@ Definition expect (s : joblist) (i : nat) (st : option pstate) : joblist :=
   | None => s
   | Some j =>
       mkJL (set_slot (slots s) i
-              (Some (mkJob (jpid j) (jstate j) st (jchanged j) (jowned j))))
+              (Some (mkJob (jpid j) (jstate j) st (jchanged j) (jowned j) (jname j))))
            (free s) (pidx s) (cur s) (prev s)
   end.
 Definition state_reported (s : joblist) (i : nat) : joblist :=
@@ -296,14 +297,14 @@ Definition state_reported (s : joblist) (i : nat) : joblist :=
   | None => s
   | Some j =>
       mkJL (set_slot (slots s) i
-              (Some (mkJob (jpid j) (jstate j) (jexpected j) false (jowned j))))
+              (Some (mkJob (jpid j) (jstate j) (jexpected j) false (jowned j) (jname j))))
            (free s) (pidx s) (cur s) (prev s)
   end.
 
 (* --- operations and observations ------------------------------------- *)
 
 Inductive op :=
-| OInsert (pid : Z) (st : pstate)
+| OInsert (pid : Z) (st : pstate) (name : str)
 | ORemove (i : nat)
 | ORemoveIdxs (l : list nat)        (* remove_if (|i, _| l.contains(i)) *)
 | ORemoveFinished                   (* remove_if (|_, j| !j.state.is_alive()) *)
@@ -315,7 +316,7 @@ Inductive op :=
 
 Definition step (s : joblist) (o : op) : joblist :=
   match o with
-  | OInsert pid st => fst (insert s (new_job pid st))
+  | OInsert pid st name => fst (insert s (new_job pid st name))
   | ORemove i => fst (remove s i)
   | ORemoveIdxs l => remove_if (fun i _ => existsb (Nat.eqb i) l) s
   | ORemoveFinished => remove_if (fun _ j => negb (is_alive (jstate j))) s
@@ -330,7 +331,7 @@ Definition step (s : joblist) (o : op) : joblist :=
    one job" – a pid can only be reused after its job has finished). *)
 Definition op_ok (s : joblist) (o : op) : bool :=
   match o with
-  | OInsert pid _ =>
+  | OInsert pid _ _ =>
       match find_by_pid s pid with
       | None => true
       | Some i => match get s i with Some j => negb (is_alive (jstate j)) | None => true end
